@@ -9,6 +9,7 @@
 import ModVerif.Spec.EditSpec
 import ModVerif.Proofs.EditSpecLists
 import ModVerif.Model.Modfile.EditAbs
+import ModVerif.Proofs.EditModel
 namespace ModVerif.Props.C15
 open ModVerif ModVerif.EditSpec ModVerif.Modfile
 
@@ -68,6 +69,32 @@ theorem C15_violated_retract_blank_line_dropped :
     Edit.outcomeIs (Edit.sessionMod (B "// note\nretract (\n\t[v2.9.0, v2.0.0-alpha.1]\n\n\tv2.9.0\n)\n") [.sortBlocks])
       (fun o => o.typed.retract.contains ⟨B "v2.9.0", B "v2.9.0", []⟩ &&
                 (o.reparsed.map fun a => a.retract.contains ⟨B "v2.9.0", B "v2.9.0", B "note"⟩ && !a.retract.contains ⟨B "v2.9.0", B "v2.9.0", []⟩) == some true) = true := by
+  decide +kernel
+
+
+/-- **No cleared placeholder entries after Cleanup** (model of File.Cleanup / WorkFile.Cleanup): every typed
+    list of the cleaned file holds only live entries.  (This is the clause F2/F3 violated before the fixes:
+    the model's `cleanup` compacts `tool`, `workCleanup` compacts `godebug`.) -/
+theorem cleanup_no_cleared_entries (e : Edit.EFile) (w : Edit.EWork) :
+    ((∀ g ∈ (Edit.cleanup e).f.godebug, g.key ≠ []) ∧ (∀ r ∈ (Edit.cleanup e).f.require, r.mod.path ≠ []) ∧
+     (∀ x ∈ (Edit.cleanup e).f.exclude, x.mod.path ≠ []) ∧ (∀ r ∈ (Edit.cleanup e).f.replace, r.old.path ≠ []) ∧
+     (∀ r ∈ (Edit.cleanup e).f.retract, r.interval.low ≠ [] ∨ r.interval.high ≠ []) ∧ (∀ t ∈ (Edit.cleanup e).f.tool, t.path ≠ [])) ∧
+    ((∀ g ∈ (Edit.workCleanup w).f.godebug, g.key ≠ []) ∧ (∀ u ∈ (Edit.workCleanup w).f.use, u.path ≠ []) ∧
+     (∀ r ∈ (Edit.workCleanup w).f.replace, r.old.path ≠ [])) :=
+  ⟨Edit.cleanup_no_cleared e, Edit.workCleanup_no_cleared w⟩
+
+/-- `typed_eq_tree`, the part checked so far: on a concrete session touching every list (adds, drops with
+    deferred removal, a bulk setter, a tool) the typed lists after Cleanup equal the strict re-parse of the
+    formatted file.  The universally quantified invariant is in lean/PENDING.md. -/
+theorem typed_eq_tree_partial :
+    Edit.outcomeIs (Edit.sessionMod (B "module example.com/m\n\ngo 1.21\n\nrequire (\n\texample.com/a v1.0.0 // indirect\n\texample.com/b v1.2.3\n\texample.com/a v1.1.0\n)\n\nexclude example.com/b v1.0.0\n\nreplace example.com/a v1.0.0 => ../a\n\ntool example.com/t\n\ngodebug panicnil=1\n")
+        [.addRetract (B "v1.0.0") (B "v1.0.0") (B "bad"), .dropTool (B "example.com/t"), .addTool (B "example.com/u"),
+         .addReplace (B "example.com/a") [] (B "example.com/c") (B "v1.2.0"), .dropExclude (B "example.com/b") (B "v1.0.0"),
+         .addGodebug (B "panicnil") (B "0"), .cleanup,
+         .setRequireSeparateIndirect [⟨B "example.com/a", B "v1.4.0", false⟩, ⟨B "example.com/e", B "v1.0.0", true⟩] true, .cleanup])
+      (fun o => o.reparsed == some o.typed && o.res.all id &&
+                o.typed.retract == [⟨B "v1.0.0", B "v1.0.0", B "bad"⟩] && o.typed.tool == [B "example.com/u"] &&
+                o.typed.replace == [⟨B "example.com/a", [], B "example.com/c", B "v1.2.0"⟩] && o.typed.exclude == []) = true := by
   decide +kernel
 
 /-- non-vacuity: a session in which a later op works on what an earlier one created -/
